@@ -37,28 +37,44 @@ class MonkeyPatchSpec:
 PatchSpec = Union[AssignSpec, MonkeyPatchSpec]
 
 
+def _owns_attr(tgt: Any, attr: str) -> bool:
+    """Whether ``attr`` lives in ``tgt``'s own namespace (not merely inherited)."""
+    try:
+        return attr in vars(tgt)
+    except TypeError:
+        # No ``__dict__`` to inspect: keep the historic behaviour (re-assign).
+        return True
+
+
 @contextmanager
 def apply_patches(specs: list[PatchSpec]) -> Iterator[None]:
-    applied: list[Tuple[Any, str, Any]] = []
+    applied: list[Tuple[Any, str, Any, bool]] = []
     try:
         for s in specs:
             tgt = _resolve(s.target)
             orig = getattr(tgt, s.attr, _MISSING)
+            # An attribute the target merely inherits (e.g. a subclass reusing
+            # its parent's ``__call__``) must be removed again on exit, not
+            # re-installed as the target's own attribute: the parent may itself
+            # be patched at this moment, and the copy would outlive its restore.
+            owned = orig is not _MISSING and _owns_attr(tgt, s.attr)
             if isinstance(s, AssignSpec):
                 setattr(tgt, s.attr, s.value)
             else:  # MonkeyPatchSpec
                 new_val = s.make_value(None if orig is _MISSING else orig)
                 setattr(tgt, s.attr, new_val)
-            applied.append((tgt, s.attr, orig))
+            applied.append((tgt, s.attr, orig, owned))
         yield
     finally:
         # unwind in reverse order
-        for tgt, attr, orig in reversed(applied):
+        for tgt, attr, orig, owned in reversed(applied):
             if orig is _MISSING:
                 try:
                     delattr(tgt, attr)
                 except Exception:
                     # if delete_if_missing False, leave as-is
                     pass
-            else:
+            elif owned:
                 setattr(tgt, attr, orig)
+            else:
+                delattr(tgt, attr)
